@@ -495,7 +495,7 @@ func (srw *streamReaderWithConvert[T]) recv() (T, error) {
 			return t, err
 		}
 
-		t, err := srw.convert(out)
+		t, err := srw.safeConvert(out)
 		if err == nil {
 			return t, nil
 		}
@@ -504,6 +504,18 @@ func (srw *streamReaderWithConvert[T]) recv() (T, error) {
 			return t, err
 		}
 	}
+}
+
+// safeConvert reports a panic of the convert function as the error of the item, as toStream's forwarding
+// goroutine does: convert functions are the per-chunk code of lazily evaluated nodes, and recv runs on
+// whatever goroutine happens to read the stream (the caller's, for the output stream of a run).
+func (srw *streamReaderWithConvert[T]) safeConvert(in any) (t T, err error) {
+	defer func() {
+		if panicErr := recover(); panicErr != nil {
+			err = safe.NewPanicErr(panicErr, debug.Stack()) // nolint: byted_returned_err_should_do_check
+		}
+	}()
+	return srw.convert(in)
 }
 
 func (srw *streamReaderWithConvert[T]) close() {
